@@ -314,7 +314,7 @@ def main():
                 continue
             body = f"# property {pid}: predicate fails on the implementation: {h['what']}\n# engine {r['engine']} origin {h['origin']}\n"
             body += "\n".join(f"{a} => {b}" for a, b in zip(h["lines"], h["impl"])) + "\n"
-            violations.append(("monitor", write_replay(pid, r["engine"], body), True, h["what"]))
+            violations.append(("monitor", (pid, r["engine"], body), True, h["what"]))
         # (b) model and implementation disagree
         for d in r["disagreements"]:
             concrete = pid in d["blamed"]
@@ -335,7 +335,7 @@ def main():
                          f"# correspondence `{r['engine']}` (model {cfg['model']}) no longer checks, so the theorems of "
                          f"{cfg['props_module']} are no longer known to describe the code\n")
             body += "\n".join(f"{a} => {b}" for a, b in zip(d["lines"], d["impl"])) + "\n"
-            violations.append(("disagreement", write_replay(pid, r["engine"], body), concrete,
+            violations.append(("disagreement", (pid, r["engine"], body), concrete,
                                f"request `{req}`: impl `{ir}` vs model `{mr}`"))
 
     # (c) proof obligations
@@ -352,7 +352,7 @@ def main():
             body += "extraction failed:\n" + extract_log[-1500:] + "\n"
         body += "\n# build log (tail)\n" + "\n".join("# " + l for l in proofs["log"].splitlines()[-40:]) + "\n"
         if not any_concrete:
-            violations.append(("proof", write_replay(pid, "proof", body), False,
+            violations.append(("proof", (pid, "proof", body), False,
                                "theorems no longer check: " + ", ".join(proofs["failed"][:6])))
 
     # evidence
@@ -401,7 +401,10 @@ def main():
     if violations:
         # concrete ones first
         violations.sort(key=lambda v: (not v[2]))
-        kind, path, concrete, text = violations[0]
+        kind, rp, concrete, text = violations[0]
+        path = write_replay(*rp)
+        for v in violations[1:3]:
+            write_replay(*v[1])
         print(f"  {text}")
         rel = os.path.relpath(path, ROOT)
         if concrete:
